@@ -97,6 +97,14 @@ def run_case(case):
                               counter="spike_retentions")
                 sigs.add((kind, kf, rep))
                 # ---- the defaults of the call: header derived from the probe version, labels deduced from the data, no version = no correction
+                if rep == 0 and kind in ("NPultra", "NP2.4"):
+                    # the generation named the way the library names it (a string for NPultra, 2.4 for four-shank probes), with and without a header
+                    ver = "NPultra" if kind == "NPultra" else 2.4
+                    for hh in ((None, h) if kind == "NPultra" else (h,)):      # (the NP2.4 test header is in the reader's sorted channel order, not the canonical one)
+                        o_v = V.destripe(st.copy(), fs, h=hh, neuropixel_version=ver, k_filter=kf)
+                        att = GS.db(GS.rms(o_v[:, sl]), GS.rms(ref[:, sl]))
+                        res.check(att <= -40.0, "destripe:version-name", f"{label}: destripe(neuropixel_version={ver!r}, h={'given' if hh is not None else 'None'}) attenuates the "
+                                  f"stripe by {att:.1f} dB only", counter="default_header_checked")
                 if rep == 0 and kind in ("3B2", "NP2.1"):
                     ver = 1 if kind == "3B2" else 2
                     o_def = V.destripe(st.copy(), fs, neuropixel_version=ver, k_filter=kf)
